@@ -242,6 +242,7 @@ def ee_globals(name, cx):
 
 @contract("expected_errors.h", "expected_errors_from_phreds", props=["C14"])
 def expected_errors_from_phreds(c):
+    c.runtime = {"module": "c14", "name": "expected_errors"}      # through the Cython wrapper that calls it
     c.types(phreds=CArrT("phreds"), phreds_length=Int, base=Int)
     c.returns(Real)
     c.spec(ee_spec)
